@@ -50,7 +50,12 @@ def witnesses():
             "hierarchy-reference-mapped-one-to-many": {"seed": 5, "n": 30, "spec": {
         "module": "rw_node", "order": ["K0", "K1"], "profile": "rt", "classes": [
             cl("K0", None, [f("uid", "int"), f("f0_0", "self_opt", "K0")]), cl("K1", "K0", [f("f1_0", "int")])]}},
-            "init-false-fields-not-restored": {"seed": 3, "n": 30, "spec": NO_INIT_SPEC}}
+            "init-false-fields-not-restored": {"seed": 3, "n": 30, "spec": NO_INIT_SPEC},
+            "deep-reference-chain-recursion-limit": {"seed": 5, "n": 3, "spec": CHAIN_SPEC}}
+
+
+CHAIN_SPEC = {"module": "rw_chain", "order": ["K0"], "profile": "rt", "classes": [
+    {"name": "K0", "parent": None, "fields": [{"name": "uid", "kind": "int", "target": None}, {"name": "f0_0", "kind": "self_opt", "target": "K0"}]}]}
 
 
 NO_INIT_SPEC = {"module": "rw_noinit", "order": ["K0", "K1"], "profile": "rt", "classes": [
